@@ -3134,11 +3134,24 @@ struct XfrCfg {
     shape: u8,
     /// an ordinary single-response request shares the connection
     with_single: bool,
+    /// IXFR: serial of the SOA in the request's authority section (None = no
+    /// SOA in the request). The server's serial is 7.
+    client_serial: Option<u32>,
 }
 impl XfrCfg {
     fn json(&self) -> Value {
         let name = ["AXFR", "IXFR-single-SOA", "IXFR-as-AXFR", "IXFR-incremental"][self.shape as usize];
-        json!({"transfer": name, "with_ordinary_request": self.with_single})
+        json!({"transfer": name, "with_ordinary_request": self.with_single, "request_soa_serial": self.client_serial})
+    }
+    /// RFC 1995 section 4 with RFC 1982 comparison: a response that consists
+    /// of the server's SOA alone is complete unless the server's serial (7)
+    /// is newer than the requester's; without a SOA in the request a lone
+    /// SOA is taken as the complete response.
+    fn lone_soa_is_complete(&self) -> bool {
+        match self.client_serial {
+            None => true,
+            Some(ours) => (7u32.wrapping_sub(ours) as i32) <= 0,
+        }
     }
     fn qtype(&self) -> u16 {
         if self.shape == 0 {
@@ -3168,7 +3181,7 @@ fn soa_rdata(serial: u32) -> Vec<u8> {
 }
 
 fn xfr_request_bytes(cfg: &XfrCfg) -> Vec<u8> {
-    let ns: u16 = if cfg.shape == 0 { 0 } else { 1 };
+    let ns: u16 = cfg.client_serial.is_some() as u16;
     let mut v = vec![0, 0, 0x00, (XFR_CALLER as u8) << 4, 0, 1, 0, 0];
     v.extend_from_slice(&ns.to_be_bytes());
     v.extend_from_slice(&[0, 0]);
@@ -3176,10 +3189,10 @@ fn xfr_request_bytes(cfg: &XfrCfg) -> Vec<u8> {
     v.extend_from_slice(&cfg.qtype().to_be_bytes());
     v.extend_from_slice(&[0, 1]);
     if ns == 1 {
-        // IXFR: the client's current SOA (serial 5) in the authority section
+        // IXFR: the client's current SOA in the authority section
         v.extend_from_slice(ZONE);
         v.extend_from_slice(&[0, 6, 0, 1, 0, 0, 0, 60]);
-        let rd = soa_rdata(5);
+        let rd = soa_rdata(cfg.client_serial.unwrap());
         v.extend_from_slice(&(rd.len() as u16).to_be_bytes());
         v.extend_from_slice(&rd);
     }
@@ -3246,6 +3259,8 @@ enum XAct {
     SegmentUnderSingleId,
     /// one more message under the transfer's ID after it has ended
     XStale,
+    /// the peer stays silent for just over the response timeout
+    Tick,
     Eof,
     Short,
     CancelXfr,
@@ -3280,9 +3295,13 @@ async fn run_xfr(g: &Global, cfg: &XfrCfg, ch: Arc<Mutex<Chooser>>) {
     let mut core = Core::new(g, "stream_xfr", cfg.json(), ch.clone(), &plan);
     let st = Arc::new(Mutex::new(StreamState::default()));
     let mock = MockStream { st: st.clone(), ch: ch.clone(), wf: WFaults { enabled: false, all_cuts: false } };
-    let (conn, transport) = stream::Connection::<Rq, RqM>::with_config(mock, stream::Config::new());
+    let mut sc = stream::Config::new();
+    sc.set_response_timeout(Duration::from_secs(2)); // also the streaming response timeout
+    let (conn, transport) = stream::Connection::<Rq, RqM>::with_config(mock, sc);
     let mut conn = Some(conn);
     let mut tr = Some(Slot::new(transport.run()));
+    let mut model_done = false; // the transfer is over by the reference reading
+    let mut timeout_due = false; // the connection has been silent for more than the response timeout
     let mut entries: Vec<Entry> = Vec::new(); // the ordinary request only
     let seen: Arc<Mutex<Vec<XRes>>> = Arc::new(Mutex::new(Vec::new()));
     let script = cfg.script();
@@ -3379,6 +3398,13 @@ async fn run_xfr(g: &Global, cfg: &XfrCfg, ch: Arc<Mutex<Chooser>>) {
             clean = false; // report once
         }
         let xfr_done = matches!(obs.last(), Some(XRes::End) | Some(XRes::Err(_)));
+        if timeout_due && healthy && xfr_submitted && !xfr_cancelled && !xfr_done && xfr_id.is_some() {
+            core.violate(
+                "C15|stream_xfr|budget|transfer-pending-after-response-timeout".into(),
+                format!("the transfer's caller is still waiting although the connection has been silent for more than the response timeout; it saw {} item(s)", obs.len()),
+            );
+        }
+        timeout_due = false;
         let ex = format!("x{}{}{}|s{}|c{}|o{}|e{:?}", xfr_submitted as u8, xfr_id.is_some() as u8, xfr_done as u8, sent_recs, clean as u8, obs.len(), entries.iter().map(|e| e.open).collect::<Vec<_>>());
         core.state(&ex);
 
@@ -3392,8 +3418,11 @@ async fn run_xfr(g: &Global, cfg: &XfrCfg, ch: Arc<Mutex<Chooser>>) {
             XAct::SubmitXfr
         } else if single_unsub {
             XAct::SubmitSingle
-        } else if xfr_active && remaining > 0 && !xfr_done {
+        } else if xfr_active && remaining > 0 && !xfr_done && !model_done {
             XAct::Segment(remaining, true)
+        } else if xfr_active && !xfr_done && !model_done && !xfr_cancelled {
+            // everything sent, yet the transfer is not complete: the peer falls silent
+            XAct::Tick
         } else if healthy && single_open.is_some() {
             XAct::AnswerSingle
         } else {
@@ -3404,7 +3433,7 @@ async fn run_xfr(g: &Global, cfg: &XfrCfg, ch: Arc<Mutex<Chooser>>) {
             if xfr_active && remaining > 0 {
                 for k in 1..=remaining {
                     for q in [true, false] {
-                        if !(k == remaining && q && !xfr_done) {
+                        if !(k == remaining && q && !xfr_done && !model_done) {
                             menu.push(XAct::Segment(k, q));
                         }
                     }
@@ -3430,6 +3459,9 @@ async fn run_xfr(g: &Global, cfg: &XfrCfg, ch: Arc<Mutex<Chooser>>) {
                     menu.push(XAct::XStale);
                 }
                 menu.push(XAct::XUnknownId);
+                if !xfr_done && !matches!(default, XAct::Tick) {
+                    menu.push(XAct::Tick);
+                }
             }
             menu.push(XAct::Eof);
             menu.push(XAct::Short);
@@ -3500,17 +3532,23 @@ async fn run_xfr(g: &Global, cfg: &XfrCfg, ch: Arc<Mutex<Chooser>>) {
                 if !well_formed || (cfg.shape != 0 && !q) {
                     clean = false;
                 }
-                // IXFR: a first message holding nothing but the first SOA is
-                // indistinguishable from the complete "you are up to date"
-                // answer (RFC 1995); either reading is accepted
-                if cfg.shape >= 2 && first && k == 1 {
+                // after the end (by the reference reading) anything more is a stray message
+                if model_done {
                     clean = false;
-                    core.count("xfr.ixfr-first-message-single-soa(ambiguous)");
+                }
+                // IXFR: a first message holding nothing but the server's SOA
+                // is the complete answer unless the server's serial is newer
+                // than the one in the request (then the rest is still to come)
+                let lone = cfg.shape >= 1 && first && k == 1;
+                let lone_complete = lone && cfg.lone_soa_is_complete();
+                if lone {
+                    core.count(if lone_complete { "xfr.ixfr-lone-soa.complete" } else { "xfr.ixfr-lone-soa.more-to-come" });
                 }
                 if clean {
                     expect_seen.push(XRes::Msg(msg.clone()));
-                    if sent_recs == script.len() {
+                    if lone_complete || (sent_recs == script.len() && !lone) {
                         expect_seen.push(XRes::End);
+                        model_done = true;
                     }
                 }
                 xfr_send(&mut core, &mut entries, &mut xfr_delivered, &st, msg, &format!("{k} record(s) {:?}, question {}", recs, if q { "present" } else { "omitted" }));
@@ -3580,9 +3618,18 @@ async fn run_xfr(g: &Global, cfg: &XfrCfg, ch: Arc<Mutex<Chooser>>) {
             }
             XAct::XStale => {
                 core.count("action.xfr-fault.message-after-end");
+                clean = false; // (it is a continuation if the transfer is still open)
                 let msg = mk_xfr_msg(xid, Some((ZONE, qt)), 0, &[XRec::A], ttl);
                 core.excuse_all = true;
                 xfr_send(&mut core, &mut entries, &mut xfr_delivered, &st, msg, "one more message after the transfer has ended");
+            }
+            XAct::Tick => {
+                core.count("action.tick");
+                core.note("the peer is silent for 2001 ms".into());
+                clean = false; // from here on only the timeout rule applies
+                core.excuse_all = true;
+                timeout_due = true;
+                tokio::time::advance(Duration::from_millis(2001)).await;
             }
             XAct::Eof | XAct::Short => {
                 if matches!(act, XAct::Short) {
@@ -3709,9 +3756,13 @@ fn all_cases() -> Vec<Case> {
     for c in combo_cfgs() {
         cases.push(Case::Combo(c));
     }
-    for shape in 0..4u8 {
-        for with_single in [false, true] {
-            cases.push(Case::Xfr(XfrCfg { shape, with_single }));
+    for with_single in [false, true] {
+        cases.push(Case::Xfr(XfrCfg { shape: 0, with_single, client_serial: None }));
+        // IXFR: the requester has no SOA / is ahead of (9), level with (7), behind (5) the server (7)
+        for shape in 1..4u8 {
+            for client_serial in [None, Some(9), Some(7), Some(5)] {
+                cases.push(Case::Xfr(XfrCfg { shape, with_single, client_serial }));
+            }
         }
     }
     cases
@@ -4004,7 +4055,7 @@ fn main() {
         &[
             "reply grammar offered by the mock peers under the request's ID: RCODE {NOERROR, SERVFAIL, NXDOMAIN, REFUSED} x question {the request's, another name, the request's name with another type, empty, empty with one answer record} x TC {0,1} (40 shapes incl. the intact answer), plus QR=0; under a wrong ID: every RCODE x question {same, empty}; stream additionally: late/re-sent answers and error replies (3 error RCODEs) for closed requests, which meet recycled slots. Full product for every open/waiting request in cases with <= 2 callers, for the oldest one in 3-caller cases; three representative shapes in the 6-caller case; dgram_stream/multi_stream: NXDOMAIN x {other name, empty, empty+record} x TC",
             "oracle exemption: a reply with RCODE != 0 and all four section counts zero is accepted on the ID alone (this is what RequestMessage::is_answer documents: 'If the result is an error, then the question section can be empty. In that case we require all other sections to be empty as well.'); every other Ok must carry the request's question",
-            "multi-response requests (stream_xfr cases): one AXFR or IXFR request (RequestMessageMulti; IXFR answered with the single SOA, AXFR style, or incrementally), optionally sharing the connection with an ordinary request; the peer chooses how many records go into each message and whether later messages repeat the question, interleaves the ordinary answer, and can send: another question, REFUSED, a header-only error, a non-SOA first record, an unrelated SOA, either caller's message under the other's ID, an unknown ID, a message after the end, EOF, a short frame. Oracle: every message handed to the transfer's caller is one the peer sent under its ID, in order, none twice; the first one carries the question (or is a header-only error); a well-formed transfer on a healthy connection is handed over completely, followed by exactly one end-of-stream; the stream always ends. An IXFR whose first message holds only the first SOA is ambiguous (RFC 1995) and either reading is accepted",
+            "multi-response requests (stream_xfr cases): one AXFR or IXFR request (RequestMessageMulti; IXFR answered with the single SOA, AXFR style, or incrementally), optionally sharing the connection with an ordinary request; the peer chooses how many records go into each message and whether later messages repeat the question, interleaves the ordinary answer, and can send: another question, REFUSED, a header-only error, a non-SOA first record, an unrelated SOA, either caller's message under the other's ID, an unknown ID, a message after the end, EOF, a short frame. Oracle: every message handed to the transfer's caller is one the peer sent under its ID, in order, none twice; the first one carries the question (or is a header-only error); a well-formed transfer on a healthy connection is handed over completely, followed by exactly one end-of-stream; the stream always ends. IXFR requests carry no SOA or a SOA with serial 9 / 7 / 5 (server: 7): a first message holding only the server SOA is the complete answer (message, then end-of-stream) unless the server serial is newer than the request serial (RFC 1995 section 4, RFC 1982 comparison); then the transfer continues: a peer that sends the rest gets everything delivered, a peer that stays silent for response_timeout + 1 ms (2 s configured) makes the caller fail; without a SOA in the request a lone SOA is the complete answer",
             "requests with EDNS data (stream and dgram cases marked edns): base message with an additional record and an OPT, then set_dnssec_ok, add_opt(NSID), set_udp_payload_size through ComposeRequest; the request on the wire must keep the question and the additional record and carry exactly one OPT with DO, NSID and the expected payload size (the caller's 1400 on streams and when dgram's own size is None, dgram's 1232 otherwise)",
             "answers with an edns-tcp-keepalive option (timeout 0 and 2 s) are in the stream reply menu (<= 2 callers); dgram config paths: udp_payload_size None, recv_size 20 (answers arrive cut and must be ignored), max_parallel 0 (clamped to 1), budget taken from the config getters; redundant/load_balancer: upstreams answering REFUSED/SERVFAIL with defer_refused+defer_servfail off (returned at once) and on (returned only after every upstream has been tried and has finished, a proper answer wins)",
             "at most 3 deviations from the default environment per execution (2 in quick); at most 3 concurrent requests (one 6-request two-wave stream case with 4 concurrent)",
